@@ -262,6 +262,49 @@ Proof. reflexivity. Qed.
 Lemma and_inplace_aliased_eq ah al : sc_uint128_bitwise_and_inplace_aliased ah al = sc_uint128_bitwise_and_inplace ah al ah al.
 Proof. reflexivity. Qed.
 
+(* documented aliasing of the out-of-place functions ("input == result", "a == result", "b == result", "a == b"):
+   the same source translated with the parameters aliased computes what the non-aliased translation computes *)
+Lemma shr_inres h l s rh rl : sc_uint128_shift_right_inres h l s = sc_uint128_shift_right h l s rh rl.
+Proof. reflexivity. Qed.
+Lemma shl_inres h l s rh rl : sc_uint128_shift_left_inres h l s = sc_uint128_shift_left h l s rh rl.
+Proof. reflexivity. Qed.
+Lemma neg_ares h l rh rl : sc_uint128_bitwise_neg_ares h l = sc_uint128_bitwise_neg h l rh rl.
+Proof. reflexivity. Qed.
+Lemma or_ares ah al bh bl rh rl : sc_uint128_bitwise_or_ares ah al bh bl = sc_uint128_bitwise_or ah al bh bl rh rl.
+Proof. reflexivity. Qed.
+Lemma or_bres ah al bh bl rh rl : sc_uint128_bitwise_or_bres ah al bh bl = sc_uint128_bitwise_or ah al bh bl rh rl.
+Proof. reflexivity. Qed.
+Lemma or_abres ah al rh rl : sc_uint128_bitwise_or_abres ah al = sc_uint128_bitwise_or ah al ah al rh rl.
+Proof. reflexivity. Qed.
+Lemma and_ares ah al bh bl rh rl : sc_uint128_bitwise_and_ares ah al bh bl = sc_uint128_bitwise_and ah al bh bl rh rl.
+Proof. reflexivity. Qed.
+Lemma and_bres ah al bh bl rh rl : sc_uint128_bitwise_and_bres ah al bh bl = sc_uint128_bitwise_and ah al bh bl rh rl.
+Proof. reflexivity. Qed.
+Lemma and_abres ah al rh rl : sc_uint128_bitwise_and_abres ah al = sc_uint128_bitwise_and ah al ah al rh rl.
+Proof. reflexivity. Qed.
+Lemma add_ab ah al rh rl : sc_uint128_add_ab ah al rh rl = sc_uint128_add ah al ah al rh rl.
+Proof. reflexivity. Qed.
+Lemma sub_ab ah al rh rl : sc_uint128_sub_ab ah al rh rl = sc_uint128_sub ah al ah al rh rl.
+Proof. reflexivity. Qed.
+Lemma outofplace_aliased : forall ah al bh bl s rh rl,
+  sc_uint128_shift_right_inres ah al s = sc_uint128_shift_right ah al s rh rl /\
+  sc_uint128_shift_left_inres ah al s = sc_uint128_shift_left ah al s rh rl /\
+  sc_uint128_bitwise_neg_ares ah al = sc_uint128_bitwise_neg ah al rh rl /\
+  sc_uint128_bitwise_or_ares ah al bh bl = sc_uint128_bitwise_or ah al bh bl rh rl /\
+  sc_uint128_bitwise_or_bres ah al bh bl = sc_uint128_bitwise_or ah al bh bl rh rl /\
+  sc_uint128_bitwise_or_abres ah al = sc_uint128_bitwise_or ah al ah al rh rl /\
+  sc_uint128_bitwise_and_ares ah al bh bl = sc_uint128_bitwise_and ah al bh bl rh rl /\
+  sc_uint128_bitwise_and_bres ah al bh bl = sc_uint128_bitwise_and ah al bh bl rh rl /\
+  sc_uint128_bitwise_and_abres ah al = sc_uint128_bitwise_and ah al ah al rh rl /\
+  sc_uint128_add_ab ah al rh rl = sc_uint128_add ah al ah al rh rl /\
+  sc_uint128_sub_ab ah al rh rl = sc_uint128_sub ah al ah al rh rl.
+Proof.
+  intros.
+  split; [apply shr_inres|]. split; [apply shl_inres|]. split; [apply neg_ares|]. split; [apply or_ares|].
+  split; [apply or_bres|]. split; [apply or_abres|]. split; [apply and_ares|]. split; [apply and_bres|].
+  split; [apply and_abres|]. split; [apply add_ab|apply sub_ab].
+Qed.
+
 Lemma aliased_correct ah al : wf128 ah al ->
   val128 (sc_uint128_add_inplace_aliased ah al) = (2 * val128 (ah, al)) mod M128 /\
   val128 (sc_uint128_sub_inplace_aliased ah al) = 0 /\
